@@ -830,7 +830,7 @@ func (g *Gen) execBuiltin(x *ssa.Call, b *ssa.Builtin, c *ssa.CallCommon, st *St
 				dn, _ := g.mapNames(mt)
 				ds, _ := g.mapSorts(mt)
 				hd := g.heapGet(st, dn, ds)
-				t = g.defineRaw("mlen", "Int", sIte(sEq(a.T, "0"), "0", fmt.Sprintf("(%s %s %s)", mapLenFn(g.sortOf(mt.Key())), hd, a.T)))
+				t = g.defineRaw("mlen", "Int", sIte(sEq(a.T, "0"), "0", mapLenTerm(g.sortOf(mt.Key()), hd, a.T)))
 				g.assume("true", fmt.Sprintf("(>= %s 0)", t))
 				// len == 0 ⇔ empty domain
 				ks := g.sortOf(mt.Key())
@@ -872,8 +872,8 @@ func (g *Gen) execBuiltin(x *ssa.Call, b *ssa.Builtin, c *ssa.CallCommon, st *St
 		nd := g.defineRaw("h", ds, sIte(sEq(m.T, "0"), hd, fmt.Sprintf("(store %[1]s %[2]s (store (select %[1]s %[2]s) %[3]s false))", hd, m.T, k.T)))
 		st.heap[dn] = nd
 		was := fmt.Sprintf("(select (select %s %s) %s)", hd, m.T, k.T)
-		ml := mapLenFn(g.sortOf(mt.Key()))
-		g.assume(st.reach, fmt.Sprintf("(= (%[5]s %[1]s %[2]s) (ite %[3]s (- (%[5]s %[4]s %[2]s) 1) (%[5]s %[4]s %[2]s)))", nd, m.T, was, hd, ml))
+		mks := g.sortOf(mt.Key())
+		g.assume(st.reach, fmt.Sprintf("(= %s (ite %s (- %s 1) %s))", mapLenTerm(mks, nd, m.T), was, mapLenTerm(mks, hd, m.T), mapLenTerm(mks, hd, m.T)))
 	case "min", "max":
 		a, bb := g.val(c.Args[0], st), g.val(c.Args[1], st)
 		lt := g.binop(tokenLSS, a, bb, c.Args[0].Type(), types.Typ[types.Bool], nil)
